@@ -323,19 +323,36 @@ fn run_case(mode: &str, t: &mut Toks) -> Result<String, String> {
             for _ in 0..n {
                 lists.push(t.strings()?);
             }
+            // both entry points of the List trait are driven: `merge` (consuming) and `merge_from` (by reference);
+            // they must agree, a disagreement is appended to the observation
             if kind == "u" {
                 let mut acc = hooks::UniqueList::new();
+                let mut acc2 = hooks::UniqueList::new();
                 for l in lists {
+                    acc2.merge_from(&hooks::UniqueList::from(l.clone()));
                     acc.merge(hooks::UniqueList::from(l));
                 }
-                Ok(format!("ok {}", canon_strs(acc.verif_items())))
+                let extra = if acc.verif_items() == acc2.verif_items() {
+                    String::new()
+                } else {
+                    format!(" MERGE_FROM {}", canon_strs(acc2.verif_items()))
+                };
+                Ok(format!("ok {}{}", canon_strs(acc.verif_items()), extra))
             } else {
                 let mut acc = hooks::RemovableList::new();
+                let mut acc2 = hooks::RemovableList::new();
                 for l in lists {
+                    acc2.merge_from(&hooks::RemovableList::from(l.clone()));
                     acc.merge(hooks::RemovableList::from(l));
                 }
                 let (items, negs) = acc.verif_parts();
-                Ok(format!("ok {} {}", canon_strs(items), canon_strs(negs)))
+                let (items2, negs2) = acc2.verif_parts();
+                let extra = if items == items2 && negs == negs2 {
+                    String::new()
+                } else {
+                    format!(" MERGE_FROM {} {}", canon_strs(items2), canon_strs(negs2))
+                };
+                Ok(format!("ok {} {}{}", canon_strs(items), canon_strs(negs), extra))
             }
         }
         "float" => {
